@@ -16,7 +16,7 @@ pub struct C17;
 
 const SUBS: &[&str] = &["oligo_mmap", "oligo_batch", "cgr", "kcgr", "cov", "ctr", "s2m", "m2s"];
 
-fn gen_run(rng: &mut Rng, sub: &str, thorough: bool, base: Option<&Params>) -> (Vec<Rec>, Container, Params) {
+fn gen_run(rng: &mut Rng, sub: &str, thorough: bool, base: Option<&Params>, via_cli: bool) -> (Vec<Rec>, Container, Params) {
     // parameters vary between the runs of a history, but stay in the family
     let keep = |name: &str, rng: &mut Rng, fresh: serde_json::Value| -> serde_json::Value {
         match base {
@@ -25,12 +25,15 @@ fn gen_run(rng: &mut Rng, sub: &str, thorough: bool, base: Option<&Params>) -> (
         }
     };
     let k = match sub {
+        "oligo_mmap" | "oligo_batch" | "kcgr" if via_cli => rng.usize(3, 5),
         "oligo_mmap" | "oligo_batch" | "kcgr" => rng.usize(1, 5),
+        "cov" if via_cli => *rng.pick(&[7usize, 8, 9, 12, 21, 31]),
+        "ctr" if via_cli => *rng.pick(&[10usize, 11, 12, 21, 31]),
         "cov" | "ctr" => *rng.pick(&[1usize, 2, 3, 5, 8, 12, 21, 31]),
         _ => 0,
     };
     let k = keep("k", rng, serde_json::json!(k)).as_u64().unwrap() as usize;
-    let m = rng.usize(1, 12);
+    let m = if via_cli { rng.usize(7, 14) } else { rng.usize(1, 12) };
     let m = keep("m", rng, serde_json::json!(m)).as_u64().unwrap() as usize;
     let w = if rng.chance(1, 3) { 0 } else { m + rng.usize(1, 20) };
     let g = RecGen {
@@ -62,8 +65,16 @@ fn gen_run(rng: &mut Rng, sub: &str, thorough: bool, base: Option<&Params>) -> (
         "gb" => if sub == "cov" && rng.chance(1, 3) { 6.0 } else { CountCfg::gb_for_limit(limit) },
         "acgt" => rng.chance(1, 3),
         "delete" => !rng.chance(1, 3),
-        "bin_size" => rng.usize(1, 9),
-        "bin_count" => rng.usize(1, 9),
+        "bin_size" => if via_cli { rng.usize(5, 12) } else { rng.usize(1, 9) },
+        "bin_count" => if via_cli { rng.usize(5, 12) } else { rng.usize(1, 9) },
+        // only used by the command-line histories
+        "via_cli" => via_cli,
+        "preset" => *rng.pick(&["csv", "tsv", "spc"]),
+        "cli_memory" => *rng.pick(&[6usize, 7, 64]),
+        "cli_threads" => *rng.pick(&[0usize, 1, 2, 3, 8]),
+        // separate counting input of cov: 0 none, 1 the first half of the run's
+        // own records, 2 all but its first record
+        "alt_mode" => if sub == "cov" && via_cli { rng.usize(0, 2) } else { 0 },
     };
     (records, container, p)
 }
@@ -101,6 +112,39 @@ fn run_sub(
             Err(p) => RunEnd { ok: false, aborted: false, text: format!("panicked: {p}") },
         }
     };
+    if p.get("via_cli").and_then(|v| v.as_bool()).unwrap_or(false) {
+        // the same history through the command line (in-process cli())
+        let mut q = p.clone();
+        let csub = match sub {
+            "oligo_mmap" | "oligo_batch" => "oligo",
+            "s2m" | "m2s" => "min",
+            other => other,
+        };
+        q.insert("sub".into(), serde_json::json!(csub));
+        q.insert("counts".into(), serde_json::json!(if csub == "oligo" { sub == "oligo_batch" } else { !pbool(p, "norm") }));
+        q.insert("minpreset".into(), serde_json::json!(if sub == "m2s" { "m2s" } else { "s2m" }));
+        q.insert("memory".into(), serde_json::json!(pu64(p, "cli_memory")));
+        q.insert("threads".into(), serde_json::json!(pu64(p, "cli_threads")));
+        let in_path = write_input(in_dir, stem, records, container);
+        let alt_records: Option<Vec<Rec>> = match pu64(p, "alt_mode") {
+            1 => Some(records[..records.len() / 2].to_vec()),
+            2 => Some(records.iter().skip(1).cloned().collect()),
+            _ => None,
+        };
+        let alt_path = alt_records.map(|a| write_input(in_dir, &format!("{stem}_alt"), &a, &Container::plain_fasta()));
+        let dir_based = matches!(sub, "cov" | "ctr");
+        let out_path = if dir_based { path_str(loc) } else { path_str(&loc.join("result")) };
+        let b = super::c15::build_argv(&q, &in_path, alt_path.as_deref(), &out_path);
+        let r = run_cli(b.argv, None, sched, io, abort_at, 4, steps);
+        out.absorb(&r, main);
+        out.probe("history_through_cli", 1);
+        return match &r.value {
+            Err(e) => classify(&Err(String::new()), &Some(e.clone())),
+            Ok(Ok(CliEnd::Returned)) => classify(&Ok(Ok(())), &None),
+            Ok(Ok(CliEnd::ParseError(e))) => classify(&Ok(Err(format!("parse error: {e}"))), &None),
+            Ok(Err(pn)) => classify(&Err(pn.clone()), &None),
+        };
+    }
     match sub {
         "oligo_mmap" | "oligo_batch" => {
             let cfg = OligoCfg {
@@ -193,7 +237,8 @@ impl Engine for C17 {
     fn generate(&self, rng: &mut Rng, tier: &str) -> Case {
         let thorough = tier == "thorough";
         let sub = *rng.pick(SUBS);
-        let (records, container, mut p) = gen_run(rng, sub, thorough, None);
+        let via_cli = rng.chance(1, 4);
+        let (records, container, mut p) = gen_run(rng, sub, thorough, None, via_cli);
         p.insert("sub".into(), serde_json::json!(sub));
         let mut extra = Vec::new();
         let n_prior = rng.usize(1, 2);
@@ -211,14 +256,14 @@ impl Engine for C17 {
                 s => s,
             };
             let same_command_again = rng.chance(1, 6) && psub == sub;
-            let (mut r2, mut c2, mut p2) = gen_run(rng, psub, thorough, Some(&p));
+            let (mut r2, mut c2, mut p2) = gen_run(rng, psub, thorough, Some(&p), via_cli);
             if same_command_again {
                 r2 = records.clone();
                 c2 = container.clone();
                 p2 = p.clone();
             } else if rng.chance(1, 2) {
                 // make the earlier output longer than the last one more often
-                let (r3, _, _) = gen_run(rng, psub, thorough, Some(&p));
+                let (r3, _, _) = gen_run(rng, psub, thorough, Some(&p), via_cli);
                 r2.extend(r3);
                 for (i, r) in r2.iter_mut().enumerate() {
                     r.id = format!("p{}_{}", i, r.id);
@@ -408,6 +453,7 @@ impl Engine for C17 {
             "stale_result_longer_than_new",
             "stale_result_shorter_than_new",
             "prior_run_other_writer_or_mode",
+            "history_through_cli",
         ]
     }
 
